@@ -169,6 +169,11 @@ def build_kprog(seed, names):
         for sh, e in enumerate(exprs):
             body.append('W fk_%d_%d(int64_t a, int64_t, int64_t) { return %s; }' % (i, sh, e))
             tab.append('{ "fk_%d_%d", %s, %d, &fk_%d_%d }' % (i, sh, lit(k), sh, i, sh))
+    # literal shift counts (C18.const): shape 7 = a << R, shape 8 = a >> R
+    for R in (0, 1, 2, 15, 16, 17, 31, 32, 33, 46, 47, 48, 61, 62, 63, -1, -64):
+        for sh, e in ((7, '(F(a) << %d).v' % R), (8, '(F(a) >> %d).v' % R)):
+            nm = 'fsh_%s%d_%d' % ('m' if R < 0 else '', abs(R), sh)
+            body.append('W %s(int64_t a, int64_t, int64_t) { return %s; }' % (nm, e)); tab.append('{ "%s", %d, %d, &%s }' % (nm, R, sh, nm))
     body.append('static const KEntry ktab_[] = {\n  ' + ',\n  '.join(tab) + '\n};')
     body.append('extern "C" __attribute__((visibility("default"))) const KEntry* cutk_table(int* n) { *n = %d; return ktab_; }' % len(tab))
     # constant integral scalars (C02.const / C03.const): a*N, N*a, a/N, a*=N, a/=N with N a literal of each integral
